@@ -73,20 +73,14 @@ def acyclic_emission(case):
     cur = {}
 
     class Row(IncRowView):
-        """rows iterate as (NB(i,k), IE(i,k)) for an arbitrary position k; neighbours are vertices and edge ids
-        are edges (representation invariant of Graph)"""
+        """rows are traversed by position: entry k is (NB(i,k), IE(i,k)); neighbours are vertices and edge ids are edges
+        (representation invariant of Graph)"""
+        pv_indexed = True
 
-        def pv_iter(self):
-            row = self
-
-            def one():
-                k = fresh_int("pos")
-                requires(And(k >= 0, k < SInt(LEN(_zint(row.v)))))
-                j, e = SInt(NB(_zint(row.v), k.t)), SInt(IE(_zint(row.v), k.t))
-                assume_fact(mk_bool(_z3.And(j.t >= 0, j.t < n.t, e.t >= 0, e.t < m.t)))
-                cur["entry"] = (j, e)
-                return (j, e)
-            return AbstractSeq(one, "incident entries")
+        def pv_getitem(self, k):
+            j, e = IncRowView.pv_getitem(self, k)
+            assume_fact(mk_bool(_z3.And(j.t >= 0, j.t < n.t, e.t >= 0, e.t < m.t)))
+            return (j, e)
 
     class Inc(IncView):
         def pv_getitem(self, v):
@@ -116,8 +110,8 @@ def acyclic_emission(case):
         return None
 
     def end_in(ns, token):
-        i = ns.i
-        j, e = cur["entry"]
+        i, k = ns.i, ns.idx
+        j, e = SInt(NB(_zint(i), k.t)), SInt(IE(_zint(i), k.t))
         news, newp = summands[mark["s"]:], posted[mark["p"]:]
         check("one-summand-per-incident-entry", len(news) == 1)
         if len(news) == 1:
@@ -154,9 +148,10 @@ def acyclic_emission(case):
             check("it-is-count_true(...)<=1", ok)
             if ok:
                 check("over-exactly-the-collected-summands", len(c.parts[0].parts) == 1 and c.parts[0].parts[0] is ns.less_ranks)
+                check("which-are-one-per-incident-entry-of-this-vertex", length(ns.less_ranks) == SInt(LEN(_zint(ns.i))))
 
     loop_spec(K, 0, inv=lambda ns: [ns.i >= 0], modifies=[], types={"less_ranks": "list:ref", "j": "int", "e": "int"}, at_head=head_out, at_end=end_out)
-    loop_spec(K, 1, inv=lambda ns: [ns.i >= 0, ns.i < n], modifies=["less_ranks"], types={"less_ranks": "list:ref"}, at_head=head_in, at_end=end_in)
+    loop_spec(K, 1, inv=lambda ns: [ns.i >= 0, ns.i < n, length(ns.less_ranks) == ns.idx], modifies=["less_ranks"], types={"less_ranks": "list:ref"}, at_head=head_in, at_end=end_in)
     o = call(REAL(GR, "active_edges_acyclic"), solver, xs, g)
     check("no-exception", not o.raised)
     if o.raised:
